@@ -124,6 +124,9 @@ def txt(n, depth=0):
     if k == "ConditionalOperator":
         return "%s ? %s : %s" % (txt(c[0], d), txt(c[1], d), txt(c[2], d))
     if k == "CXXMemberCallExpr":
+        h = strip(c[0], casts=False) if c else None
+        if h is not None and h.get("k") == "MemberExpr" and short(h.get("fn", "")).startswith("operator ") and len(c) == 1 and h.get("c"):
+            return txt(h["c"][0], d)        # implicit conversion operator (vector<bool> reference -> bool)
         return "%s(%s)" % (txt(c[0], d), ", ".join(txt(x, d) for x in c[1:]))
     if k == "CXXOperatorCallExpr":
         op = n.get("op")
